@@ -1,12 +1,181 @@
 import Driver.Wire
-/- line-protocol handlers of this area; see docs/AGENT_GUIDE.md -/
+import BpModel.Json
+import BpModel.JsonSpec
+/- line-protocol handlers of the JSON area (C04 C05); see docs/C04-notes.md -/
 namespace Drv
+open Bp
 
 structure JsonSt where
-  dummy : Unit := ()
+  enums : Enums := []
 
-def handleJson (st : JsonSt) (_wire : St) (_toks : List String) : Option (JsonSt × String) :=
-  let _ := st
-  none
+def showJKey : JKey → String
+  | .str s => "k" ++ toHex s
+  | .int i => s!"ki{i}"
+  | .bool b => if b then "kb1" else "kb0"
+
+def showJRaw : Val → String
+  | .byt b => "RAWy" ++ toHex b
+  | .ts us => s!"RAWt{us}"
+  | .dur us => s!"RAWd{us}"
+  | .ph => "RAWP"
+  | _ => "RAW?"
+
+/-- canonical one-line text of a JSON value (prefix notation, also the input syntax) -/
+partial def showJV : JVal → String
+  | .null => "N"
+  | .bool b => if b then "B1" else "B0"
+  | .num i => s!"I{i}"
+  | .fnum32 b => s!"F32:{b}"
+  | .fnum b => s!"F64:{b}"
+  | .fstr k => s!"FS{k}"
+  | .str s => "S" ++ toHex s
+  | .decStr i => s!"DS{i}"
+  | .b64 b => "B64" ++ toHex b
+  | .tsStr us => s!"TS{us}"
+  | .durStr us => s!"DU{us}"
+  | .arr xs => s!"A{xs.length}" ++ String.join (xs.map fun x => " " ++ showJV x)
+  | .obj ks vs => s!"O{ks.length}" ++ String.join ((ks.zip vs).map fun (k, v) => " " ++ showJKey k ++ " " ++ showJV v)
+  | .raw v => showJRaw v
+
+def jDropS (n : Nat) (s : String) : String := (s.drop n).toString
+
+def parseJKey (s : String) : Option JKey :=
+  if s.startsWith "ki" then (parseInt (jDropS 2 s)).map JKey.int
+  else if s == "kb1" then some (.bool true)
+  else if s == "kb0" then some (.bool false)
+  else if s.startsWith "k" then (parseHex (jDropS 1 s)).map JKey.str
+  else none
+
+mutual
+partial def parseJV : List String → Option (JVal × List String)
+  | [] => none
+  | t :: r =>
+    if t == "N" then some (.null, r)
+    else if t == "B1" then some (.bool true, r)
+    else if t == "B0" then some (.bool false, r)
+    else if t.startsWith "B64" then (parseHex (jDropS 3 t)).map fun b => (.b64 b, r)
+    else if t.startsWith "I" then (parseInt (jDropS 1 t)).map fun i => (.num i, r)
+    else if t.startsWith "F32:" then (parseNat (jDropS 4 t)).map fun b => (.fnum32 b, r)
+    else if t.startsWith "F64:" then (parseNat (jDropS 4 t)).map fun b => (.fnum b, r)
+    else if t.startsWith "FS" then (parseNat (jDropS 2 t)).map fun k => (.fstr k, r)
+    else if t.startsWith "S" then (parseHex (jDropS 1 t)).map fun s => (.str s, r)
+    else if t.startsWith "DS" then (parseInt (jDropS 2 t)).map fun i => (.decStr i, r)
+    else if t.startsWith "TS" then (parseInt (jDropS 2 t)).map fun i => (.tsStr i, r)
+    else if t.startsWith "DU" then (parseInt (jDropS 2 t)).map fun i => (.durStr i, r)
+    else if t.startsWith "RAWy" then (parseHex (jDropS 4 t)).map fun b => (.raw (.byt b), r)
+    else if t.startsWith "RAWt" then (parseInt (jDropS 4 t)).map fun i => (.raw (.ts i), r)
+    else if t.startsWith "RAWd" then (parseInt (jDropS 4 t)).map fun i => (.raw (.dur i), r)
+    else if t.startsWith "A" then do
+      let n ← parseNat (jDropS 1 t)
+      let (xs, r') ← parseJVs n r []
+      some (.arr xs, r')
+    else if t.startsWith "O" then do
+      let n ← parseNat (jDropS 1 t)
+      let (kvs, r') ← parseJKVs n r []
+      some (.obj (kvs.map (·.1)) (kvs.map (·.2)), r')
+    else none
+partial def parseJVs (n : Nat) (toks : List String) (acc : List JVal) : Option (List JVal × List String) :=
+  if n == 0 then some (acc.reverse, toks) else
+  match parseJV toks with
+  | some (v, r) => parseJVs (n - 1) r (v :: acc)
+  | none => none
+partial def parseJKVs (n : Nat) (toks : List String) (acc : List (JKey × JVal)) : Option (List (JKey × JVal) × List String) :=
+  if n == 0 then some (acc.reverse, toks) else
+  match toks with
+  | k :: r =>
+    match parseJKey k, parseJV r with
+    | some k, some (v, r') => parseJKVs (n - 1) r' ((k, v) :: acc)
+    | _, _ => none
+  | [] => none
+end
+
+partial def parseJMems (n : Nat) (toks : List String) (acc : EnumDef) : Option (EnumDef × List String) :=
+  if n == 0 then some (acc.reverse, toks) else
+  match toks with
+  | py :: pr :: num :: r =>
+    match parseHex py, parseHex pr, parseInt num with
+    | some py, some pr, some num => parseJMems (n - 1) r ({ py := py, proto := pr, num := num } :: acc)
+    | _, _, _ => none
+  | _ => none
+
+partial def parseJEnums (n : Nat) (toks : List String) (acc : Enums) : Option (Enums × List String) :=
+  if n == 0 then some (acc.reverse, toks) else
+  match toks with
+  | m :: r =>
+    match parseNat m with
+    | some m =>
+      match parseJMems m r [] with
+      | some (e, r') => parseJEnums (n - 1) r' (e :: acc)
+      | none => none
+    | none => none
+  | [] => none
+
+def jCaseOf (s : String) : Option KeyCase :=
+  if s == "camel" then some .camel else if s == "snake" then some .snake else none
+
+def showMsgR (S : Schema) : R Val → String :=
+  showR fun v => obsPVal S v ++ " | " ++ showR toHex (dumpVal S v)
+
+def fromForm (S : Schema) (E : Enums) (cls : Nat) (form : String) (j : JVal) : R Val :=
+  if form == "I" then fromDictI S E (fresh S cls) j else fromDictC S E cls j
+
+def handleJson (st : JsonSt) (wire : St) : List String → Option (JsonSt × String)
+  -- JENUMS n { m (pyhex protohex num)* }*
+  | "JENUMS" :: n :: rest => do
+    let n ← parseNat n
+    match parseJEnums n rest [] with
+    | some (E, []) => some ({ st with enums := E }, "ok")
+    | _ => some (st, "bad-enums")
+  -- TODICT sid casing incl <val>
+  | "TODICT" :: sid :: cs :: incl :: rest => do
+    let S ← wire.schema sid
+    let cs ← jCaseOf cs
+    let (v, r) ← parseVal S rest
+    if !r.isEmpty then none else
+    some (st, showJV (toDict S st.enums cs (incl == "1") v))
+  -- FROMDICT sid cls form <jval>
+  | "FROMDICT" :: sid :: cls :: form :: rest => do
+    let S ← wire.schema sid
+    let cls ← parseNat cls
+    let (j, r) ← parseJV rest
+    if !r.isEmpty then none else
+    some (st, showMsgR S (fromForm S st.enums cls form j))
+  -- JRT sid casing form path <val> : to_dict, optionally through JSON text, from_dict
+  | "JRT" :: sid :: cs :: form :: path :: rest => do
+    let S ← wire.schema sid
+    let cs ← jCaseOf cs
+    let (v, r) ← parseVal S rest
+    if !r.isEmpty then none else
+    let cls := match v with | .msg c _ _ _ _ => c | _ => 0
+    let d := toDict S st.enums cs false v
+    let d' := if path == "T" then jsonText d else some d
+    match d' with
+    | none => some (st, "ERR type")
+    | some d' => some (st, showMsgR S (fromForm S st.enums cls form d'))
+  -- JTEXT <jval> : json.loads(json.dumps(j))
+  | "JTEXT" :: rest => do
+    let (j, r) ← parseJV rest
+    if !r.isEmpty then none else
+    some (st, match jsonText j with | some j' => showJV j' | none => "ERR type")
+  -- SPECJSON sid <val> : the canonical proto3 JSON of the value
+  | "SPECJSON" :: sid :: rest => do
+    let S ← wire.schema sid
+    let (v, r) ← parseVal S rest
+    if !r.isEmpty then none else
+    some (st, showJV (specJson S st.enums v))
+  -- WF JSONOK sid casing | WF JSONOK5 sid | WF WT sid <val>
+  | "WF" :: "JSONOK" :: sid :: cs :: [] => do
+    let S ← wire.schema sid
+    let cs ← jCaseOf cs
+    some (st, if jsonOk S st.enums cs then "1" else "0")
+  | "WF" :: "JSONOK5" :: sid :: [] => do
+    let S ← wire.schema sid
+    some (st, if jsonOk5 S st.enums then "1" else "0")
+  | "WF" :: "WT" :: sid :: rest => do
+    let S ← wire.schema sid
+    let (v, r) ← parseVal S rest
+    if !r.isEmpty then none else
+    some (st, if wellTyped S v then "1" else "0")
+  | _ => none
 
 end Drv
